@@ -1,5 +1,7 @@
 pub mod common;
 pub mod c01;
+pub mod c03;
+pub mod c04;
 
 use crate::ctx::Ctx;
 use crate::report::Report;
@@ -8,6 +10,8 @@ use crate::report::Report;
 pub fn dispatch(ctx: &Ctx, rep: &mut Report) -> bool {
     match ctx.prop.as_str() {
         "C01" => c01::run(ctx, rep),
+        "C03" => c03::run(ctx, rep),
+        "C04" => c04::run(ctx, rep),
         _ => return false,
     }
     true
